@@ -44,6 +44,7 @@ type Engine struct {
 	noPrune   bool
 	tier      int
 
+	nIfConv   int
 	forkSites map[string]int
 	nDomain int
 	nForks  int
@@ -57,6 +58,7 @@ type Engine struct {
 	shardCtr       int
 	shardDepth     int
 
+	textMemo     map[string]BigIntVal
 	lastProgress time.Time
 	sumCache     map[string]sumEntry
 	baseEpoch    int // objects with id <= baseEpoch existed before the harness started
@@ -354,6 +356,7 @@ func (e *Engine) modelValue(st *State, t *Term) (uint64, bool) {
 
 var forkLog = os.Getenv("VF_FORKLOG") != ""
 var maxPaths, _ = strconv.Atoi(os.Getenv("VF_MAXPATHS"))
+var noIfConv = os.Getenv("VF_NOIFCONV") != ""
 var noModel = os.Getenv("VF_NOMODEL") != ""
 
 func (e *Engine) fetchModel() map[*Term]uint64 {
@@ -725,6 +728,9 @@ func (e *Engine) valEq(st *State, x, y Val) *Term {
 		if !ok {
 			return False
 		}
+		if a.sym != nil || b.sym != nil {
+			abort("unsupported", "comparison of symbolic-index pointers")
+		}
 		return ConstBool(a.obj == b.obj && samePath(a.path, b.path))
 	case MapVal:
 		b, ok := y.(MapVal)
@@ -1039,6 +1045,14 @@ func (e *Engine) exec(st *State, fr *Frame, in ssa.Instruction) bool {
 		}
 	case *ssa.If:
 		c := e.get(st, fr, in.Cond).(*Term)
+		if !c.IsConst() && !noIfConv {
+			if _, ok := st.known.get(c); !ok {
+				if _, ok2 := st.known.get(Not(c)); !ok2 && e.tryIfConvert(st, fr, c) {
+					e.nIfConv++
+					return false
+				}
+			}
+		}
 		if !c.IsConst() {
 			if _, ok := st.known.get(c); !ok {
 				st.unwind[fr.blk]++
@@ -1100,6 +1114,10 @@ func (e *Engine) exec(st *State, fr *Frame, in ssa.Instruction) bool {
 		fr.env[in] = PtrVal{obj: id}
 	case *ssa.Store:
 		ap := e.get(st, fr, in.Addr).(PtrVal)
+		if ap.sym != nil {
+			e.storePtr(st, ap, e.get(st, fr, in.Val))
+			break
+		}
 		if len(ap.path) == 1 && fr.fn.Name() == "init" && ap.obj != 0 {
 			if arr, ok := st.hget(ap.obj).(ArrayVal); ok && len(arr.e) > 2000 {
 				// table initialisers of the generated lexer/parser (llir/ll):
@@ -1128,11 +1146,18 @@ func (e *Engine) exec(st *State, fr *Frame, in ssa.Instruction) bool {
 		id := st.alloc(ArrayVal{arr})
 		fr.env[in] = SliceVal{id, 0, n, c}
 	case *ssa.IndexAddr:
+		i0 := fr.idx
 		e.execIndexAddr(st, fr, in)
+		if fr.idx != i0 {
+			return false
+		}
 	case *ssa.FieldAddr:
 		x := e.get(st, fr, in.X).(PtrVal)
 		if x.obj == 0 {
 			abort("panic", "nil pointer dereference (field %d of %s)", in.Field, in.X.Type())
+		}
+		if x.sym != nil {
+			abort("unsupported", "field address through a symbolic-index pointer")
 		}
 		fr.env[in] = PtrVal{obj: x.obj, path: append(append(make([]int, 0, len(x.path)+1), x.path...), in.Field)}
 	case *ssa.Field:
@@ -1357,10 +1382,52 @@ func (e *Engine) zeroOrNil(t types.Type) Val {
 
 // loadPtr / storePtr handle pointers whose last index is symbolic.
 func (e *Engine) loadPtr(st *State, p PtrVal) Val {
-	return e.load(st, p)
+	if p.sym == nil {
+		return e.load(st, p)
+	}
+	par := PtrVal{obj: p.obj, path: p.path[:len(p.path)-1]}
+	arr := e.load(st, par).(ArrayVal)
+	base := p.path[len(p.path)-1]
+	r := arr.e[base+p.symN-1].(*Term)
+	for i := p.symN - 2; i >= 0; i-- {
+		r = Ite(Eq(p.sym, ConstBV(p.sym.s.W, uint64(i))), arr.e[base+i].(*Term), r)
+	}
+	return r
 }
 func (e *Engine) storePtr(st *State, p PtrVal, v Val) {
-	e.store(st, p, v)
+	if p.sym == nil {
+		e.store(st, p, v)
+		return
+	}
+	par := PtrVal{obj: p.obj, path: p.path[:len(p.path)-1]}
+	arr := e.load(st, par).(ArrayVal)
+	base := p.path[len(p.path)-1]
+	ne := append([]Val(nil), arr.e...)
+	vt := v.(*Term)
+	for i := 0; i < p.symN; i++ {
+		ne[base+i] = Ite(Eq(p.sym, ConstBV(p.sym.s.W, uint64(i))), vt, ne[base+i].(*Term))
+	}
+	e.store(st, par, ArrayVal{ne})
+}
+
+// scalarElems reports whether elems[lo:lo+n] are all scalar terms of one sort.
+func scalarElems(elems []Val, lo, n int) bool {
+	if n == 0 {
+		return false
+	}
+	var s Sort
+	for i := 0; i < n; i++ {
+		t, ok := elems[lo+i].(*Term)
+		if !ok {
+			return false
+		}
+		if i == 0 {
+			s = t.s
+		} else if t.s != s {
+			return false
+		}
+	}
+	return true
 }
 
 func (e *Engine) execSlice(st *State, fr *Frame, in *ssa.Slice) {
@@ -1432,6 +1499,11 @@ func (e *Engine) execIndexAddr(st *State, fr *Frame, in *ssa.IndexAddr) {
 			if !e.decide(st, inb) {
 				abort("panic", "index out of range (symbolic index, length %d)", x.len)
 			}
+			if arr, ok := st.hget(x.obj).(ArrayVal); ok && scalarElems(arr.e, x.off, x.len) {
+				fr.env[in] = PtrVal{obj: x.obj, path: []int{x.off}, sym: it, symN: x.len}
+				fr.idx++
+				return
+			}
 			i = e.needInt(st, idx, "slice index")
 		}
 		if i < 0 || i >= x.len {
@@ -1449,6 +1521,11 @@ func (e *Engine) execIndexAddr(st *State, fr *Frame, in *ssa.IndexAddr) {
 			inb := BvCmp("bvult", it, ConstBV(it.s.W, uint64(n)))
 			if !e.decide(st, inb) {
 				abort("panic", "array index out of range (symbolic)")
+			}
+			if arr, ok := e.load(st, x).(ArrayVal); ok && x.sym == nil && scalarElems(arr.e, 0, n) {
+				fr.env[in] = PtrVal{obj: x.obj, path: append(append(make([]int, 0, len(x.path)+1), x.path...), 0), sym: it, symN: n}
+				fr.idx++
+				return
 			}
 			i = e.needInt(st, idx, "array index")
 		}
@@ -2097,4 +2174,163 @@ func (e *Engine) domainSides(st *State, c *Term) (canT, canF, exact bool) {
 	}
 	_, tied := st.multi.get(x)
 	return canT, canF, !tied
+}
+
+// ---------- if-conversion
+//
+// A branch whose arm(s) consist only of pure, non-trapping scalar instructions
+// and rejoin immediately (triangle / diamond, the shape of `if c { n++ }`,
+// `a && b` on comparisons, conditional assignments) is executed on both arms
+// and the phis of the join block become ite terms: no fork, no solver query.
+
+func pureInstr(in ssa.Instruction) bool {
+	switch x := in.(type) {
+	case *ssa.BinOp:
+		switch x.Op {
+		case token.QUO, token.REM:
+			return false
+		case token.SHL, token.SHR:
+			_, signed, _ := width(x.Y.Type())
+			if signed {
+				if _, isConst := x.Y.(*ssa.Const); !isConst {
+					return false
+				}
+			}
+		}
+		if _, ok := x.X.Type().Underlying().(*types.Basic); !ok {
+			return false
+		}
+		return true
+	case *ssa.UnOp:
+		return x.Op == token.NOT || x.Op == token.SUB || x.Op == token.XOR
+	case *ssa.Convert:
+		_, _, ok1 := width(x.X.Type())
+		_, _, ok2 := width(x.Type())
+		return ok1 && ok2
+	case *ssa.ChangeType:
+		_, ok := x.Type().Underlying().(*types.Basic)
+		return ok
+	case *ssa.DebugRef:
+		return true
+	}
+	return false
+}
+
+// pureArm reports whether b is a pure block with the single predecessor from
+// that jumps unconditionally, and returns its successor.
+func pureArm(b, from *ssa.BasicBlock) (*ssa.BasicBlock, bool) {
+	if len(b.Preds) != 1 || b.Preds[0] != from || len(b.Instrs) == 0 || len(b.Instrs) > 12 {
+		return nil, false
+	}
+	if _, ok := b.Instrs[len(b.Instrs)-1].(*ssa.Jump); !ok {
+		return nil, false
+	}
+	for _, in := range b.Instrs[:len(b.Instrs)-1] {
+		if !pureInstr(in) {
+			return nil, false
+		}
+	}
+	return b.Succs[0], true
+}
+
+func predIndex(b, pred *ssa.BasicBlock) int {
+	for i, p := range b.Preds {
+		if p == pred {
+			return i
+		}
+	}
+	return -1
+}
+
+func (e *Engine) tryIfConvert(st *State, fr *Frame, c *Term) (ok bool) {
+	blk := fr.blk
+	T, F := blk.Succs[0], blk.Succs[1]
+	if T == F {
+		return false
+	}
+	var J *ssa.BasicBlock
+	var predT, predF *ssa.BasicBlock // predecessors of J on the true / false side
+	jt, okT := pureArm(T, blk)
+	jf, okF := pureArm(F, blk)
+	switch {
+	case okT && okF && jt == jf:
+		J, predT, predF = jt, T, F
+	case okT && jt == F:
+		J, predT, predF = F, T, blk
+	case okF && jf == T:
+		J, predT, predF = T, blk, F
+	default:
+		return false
+	}
+	if J == blk || J == T && predT != blk && false {
+		return false
+	}
+	iT, iF := predIndex(J, predT), predIndex(J, predF)
+	if iT < 0 || iF < 0 || iT == iF {
+		return false
+	}
+	// J must not be reached twice from blk directly (switch-like duplicates)
+	defer func() {
+		if r := recover(); r != nil {
+			if _, isAbort := r.(pathAbort); isAbort {
+				ok = false // fall back to an ordinary fork
+				return
+			}
+			panic(r)
+		}
+	}()
+	run := func(b *ssa.BasicBlock) {
+		for _, in := range b.Instrs[:len(b.Instrs)-1] {
+			switch x := in.(type) {
+			case *ssa.BinOp:
+				fr.env[x] = e.binop(st, x.Op, x.X.Type(), e.get(st, fr, x.X), e.get(st, fr, x.Y))
+			case *ssa.UnOp:
+				v := e.get(st, fr, x.X).(*Term)
+				switch x.Op {
+				case token.NOT:
+					fr.env[x] = Not(v)
+				case token.SUB:
+					if v.s.K == 'f' {
+						fr.env[x] = FpNeg(v)
+					} else {
+						fr.env[x] = BvNeg(v)
+					}
+				default:
+					fr.env[x] = BvNot(v)
+				}
+			case *ssa.Convert:
+				fr.env[x] = e.convert(st, e.get(st, fr, x.X), x.X.Type(), x.Type())
+			case *ssa.ChangeType:
+				fr.env[x] = e.get(st, fr, x.X)
+			}
+		}
+	}
+	if predT != blk {
+		run(predT)
+	}
+	if predF != blk {
+		run(predF)
+	}
+	var phis []*ssa.Phi
+	var vals []Val
+	for _, in := range J.Instrs {
+		p, isPhi := in.(*ssa.Phi)
+		if !isPhi {
+			break
+		}
+		vt, vf := e.get(st, fr, p.Edges[iT]), e.get(st, fr, p.Edges[iF])
+		m, okm := mergeVal(c, vt, vf)
+		if !okm {
+			return false
+		}
+		phis = append(phis, p)
+		vals = append(vals, m)
+	}
+	for i, p := range phis {
+		fr.env[p] = vals[i]
+	}
+	fr.prev = predT
+	fr.blk = J
+	fr.idx = len(phis)
+	return true
 }
